@@ -156,7 +156,7 @@ claim('C02', 'extracted model field order vs signed-portion definition, wiring/p
 claim('C07', 'taint/bounds dominance on wire-derived lengths, interprocedural escape sets of the decoders, guard existence for the mandatory Name, decision tables, model order vs format, loop-progress checks',
       'Decides: a Length read from the wire is compared (raising) with the buffer, or with a counter that itself was so compared, before '
       'it bounds a slice or is passed on (two known findings in TlvModel.parse); the five decoders raise only documented decoding '
-      'errors; parse_interest/parse_data refuse a packet without Name and check the outer type; (the set of Lengths for which a number is returned, explored for 0..17 whatever the shape of the dispatch) Uint widths {1,2,4,8}; packet models '
+      'errors; parse_interest/parse_data/parse_certificate refuse a packet without Name and check the outer type; (the set of Lengths for which a number is returned, explored for 0..17 whatever the shape of the dispatch) Uint widths {1,2,4,8}; packet models '
       'follow the format\'s element order and fixed widths; scan loop: search from the current position, single fields advance, '
       'repeated/map stay, unknown critical raises, every element is skipped by its length; decode loops consume input. '
       'Value equality with a strict reading is not decided.',
